@@ -154,7 +154,8 @@ def code_to_spec(chk, cfgs, make_reals, tag='', solvers=('SCIPY', None), split=N
 
 
 # ---------------------------------------------------------------------------------------------- generic layer (zoo)
-def zoo_portfolio_traces(chk, seeds, routes=('mono', 'split', 'io'), zoo_list=None, clause_filter=None, tag='zoo'):
+def zoo_portfolio_traces(chk, seeds, routes=('mono', 'split', 'io'), zoo_list=None, clause_filter=None, tag='zoo', orders=('given', 'reversed'),
+                         clauses=('balance', 'accounting')):
     """optimise every zoo portfolio along every route, validate the reported tables with Trace_Portfolio.
     clause_filter(verdict) -> bool selects the rejections that belong to the calling property."""
     from harness import zoo
@@ -162,9 +163,13 @@ def zoo_portfolio_traces(chk, seeds, routes=('mono', 'split', 'io'), zoo_list=No
     traces, meta = [], []
     for seed in seeds:
         for z in (zoo_list or zoo.ZOO):
-            for route in routes:
+            for route, order in [(r, o) for r in routes for o in orders]:
                 name, pf, pr, tg = z(seed)
-                sel = dict(check='portfolio_trace', family=tag, portfolio=name, route=route)
+                if order == 'reversed':
+                    if route == 'io':
+                        continue
+                    pf = eao.portfolio.Portfolio(list(reversed(pf.assets)))      # the same assets given in the opposite order
+                sel = dict(check='portfolio_trace', family=tag, portfolio=name, route=route, order=order)
                 try:
                     with quiet():
                         if route == 'mono':
@@ -196,7 +201,7 @@ def zoo_portfolio_traces(chk, seeds, routes=('mono', 'split', 'io'), zoo_list=No
                 if isinstance(res, str) or out is None or out.get('dispatch') is None:
                     chk.cnt['pipeline_' + str(res).replace(' ', '_')] += 1
                     continue
-                traces.append(REC.portfolio_trace(pf, op, res, out))
+                traces.append(REC.portfolio_trace(pf, op, res, out, chk=clauses))
                 meta.append((sel, seed))
     if not traces:
         return
@@ -207,7 +212,7 @@ def zoo_portfolio_traces(chk, seeds, routes=('mono', 'split', 'io'), zoo_list=No
     verdicts, st = REC.validate_traces(traces + [bad, bad2], module='Trace_Portfolio')
     chk.add_tlc(st)
     chk.traces += len(traces)
-    if verdicts[-1][1] == 'accepted' or verdicts[-2][1] == 'accepted':
+    if ('accounting' in clauses and verdicts[-1][1] == 'accepted') or ('balance' in clauses and verdicts[-2][1] == 'accepted'):
         raise MachineryError('anti-vacuity: corrupted portfolio trace accepted %s' % (verdicts[-2:],))
     chk.notes['corrupted_portfolio_trace_verdicts'] = [verdicts[-2][1], verdicts[-1][1]]
     for (sel, seed), (line, v), tr in zip(meta, verdicts, traces):
